@@ -221,6 +221,28 @@ pub fn build(v: &Value) -> PushState {
     s.int_vector_stack = vec2stack(&v["ivec"], j2ivec);
     s.float_vector_stack = vec2stack(&v["fvec"], j2fvec);
     s.index_stack = vec2stack(&v["index"], j2index);
+    // optional "rot": the ring cursors are advanced by that many push/pop cycles first, so that the
+    // live items sit at a rotated (possibly wrapping) position of the ring; invisible in the abstract state
+    let rot = |name: &str| v.get("rot").and_then(|r| r.get(name)).and_then(|k| k.as_u64()).unwrap_or(0);
+    for _ in 0..rot("input") {
+        s.input_stack.push(PushMessage::default());
+        s.input_stack.pop();
+    }
+    for _ in 0..rot("output") {
+        s.output_stack.push(PushMessage::default());
+        s.output_stack.pop();
+    }
+    // a stack-kind ring only moves its cursors forward by forced pushes on a full buffer
+    if rot("graph") > 0 {
+        let cap = s.graph_stack.capacity();
+        for _ in 0..cap {
+            s.graph_stack.push(Graph::new());
+        }
+        for _ in 0..rot("graph") {
+            s.graph_stack.push_force(Graph::new());
+        }
+        while s.graph_stack.pop().is_some() {}
+    }
     // graph stack: JSON newest first; push oldest first
     if let Some(gs) = v["graph"].as_array() {
         for g in gs.iter().rev() {
